@@ -144,6 +144,14 @@ def limits_scn(d, Sc, Ss, segc, segs, msc, known, req, resp, wmax=127, first_iam
     if nl.outcome_kind(out) != want:
         raise Violation("outcome-vs-limits", got=nl.outcome_kind(out), want=want, req=len(reqp), resp=len(respp),
                         reason=getattr(out, "apduAbortRejectReason", None))
+    if want == "abort" and ABORT_SIDE["who"] == "server":
+        # it is the SERVER that cannot answer within the limits: the requester is told so by an abort on the wire, at
+        # once - not left to find out by its own no-response timeout
+        told = [a for (i, src, dst, data) in lan.frames[n0:] for a in [wire.parse_frame(data)[1]]
+                if a is not None and a["type"] == 7 and str(src) == str(server.address)]
+        if not told or not getattr(out, "apduSrv", False):
+            d.flag(True, "requester-not-told-by-the-server", aborts_on_wire=len(told), reason=getattr(out, "apduAbortRejectReason", None),
+                   outcome_from_server=bool(getattr(out, "apduSrv", False)))
     d.note(frames=len(lan.frames) - n0, req_segments=len(req_segs), resp_segments=len(resp_segs),
            outcome=nl.outcome_kind(out))
     d.reach()
@@ -212,29 +220,99 @@ def window_follow(d, nseg, wmax):
     d.reach()
 
 
+def iam_octets(instance, max_apdu, seg):
+    """I-Am of device `instance`: object identifier, max APDU accepted, segmentation supported, vendor 15"""
+    return bytes([0x10, 0x00, 0xC4, 0x02, 0x00, (instance >> 8) & 255, instance & 255,
+                  0x22, max_apdu >> 8, max_apdu & 255, 0x91, seg, 0x21, 0x0F])
+
+
+@meta(bounds="one client stack (max APDU 1024, segmentedBoth) that learns peers from their I-Am, and bare stations at addresses A "
+             "and B: a history of three announcements - a small device (50 octets, no segmentation) and a large one (1024, "
+             "segmentedBoth), each from A or B, the same device possibly twice from different addresses (it moved), order and "
+             "addresses symbolic; then a 60-octet request to A and one to B: what goes to an address respects what the device "
+             "that announced itself from that address LAST said (frames within its size, segments only if it takes them), or "
+             "the application is told with an abort",
+      outside="more than three announcements; more than two devices",
+      stubs=["virtual clock (task._time)", "asyncore.loop -> clock advance", "task._Trigger -> wake flag", "fresh singletons per path"])
+def cache_moves(d):
+    w = World()
+    lan = nl.FaultLAN([], world=w)
+    cdev = nl.make_device("c", 10, maxApduLengthAccepted=1024, segmentationSupported="segmentedBoth", numberOfApduRetries=0)
+    client = LearningStack(cdev, lan)
+    A, B = nl.RawPeer(31, lan), nl.RawPeer(32, lan)
+    caps = {1: (50, 3), 2: (1024, 0)}          # device instance -> (max APDU, segmentation code: 3 none, 0 both)
+    at = {}                                     # address -> device instance that announced itself from there last
+    where = {}                                  # device instance -> its current address
+    for k in range(3):
+        inst = d.pick([1, 2], 'device%d' % k)
+        peer = d.pick([A, B], 'from%d' % k)
+        peer.send(client.address, nl.frame(iam_octets(inst, *caps[inst]), False))
+        w.run()
+        if inst in where and where[inst] is not peer:
+            at.pop(where[inst], None)           # it moved: its old address no longer speaks for it
+        where[inst] = peer
+        for other, p_ in list(where.items()):
+            if other != inst and p_ is peer:
+                del where[other]                # another device now answers at this address
+        at[peer] = inst
+    for peer in (A, B):
+        n0 = len(peer.received)
+        c0 = len(client.confirmations)
+        client.request(nl.private_transfer(peer.address, bytes(60)))
+        w.run()
+        frames = [wire.parse_frame(data) for (src, data) in peer.received[n0:]]
+        inst = at.get(peer)
+        if inst is None:
+            continue                            # nobody announced itself from there (last): the client assumes its own limits
+        size, seg = caps[inst]
+        for (n, a) in frames:
+            if a is None:
+                continue
+            if len(n["payload"]) > size:
+                raise Violation("apdu-exceeds-announced-max", to=str(peer.address), length=len(n["payload"]), limit=size,
+                                device=inst)
+            if a["type"] == 0 and a["seg"] and seg == 3:
+                raise Violation("segmented-request-to-peer-without-segmented-receive", to=str(peer.address), device=inst)
+        if seg == 3:
+            # 60 octets do not fit 50 and may not be segmented: the application is told at once
+            outs = client.confirmations[c0:]
+            if len(outs) != 1 or nl.outcome_kind(outs[0]) != "abort" or any(a is not None and a["type"] == 0 for (n, a) in frames):
+                raise Violation("unsendable-request-not-aborted", to=str(peer.address), outcomes=[nl.outcome_kind(o) for o in outs],
+                                frames=len(frames))
+    d.reach()
+
+
 def body_len(n):
     """octets of a ConfirmedPrivateTransfer request/ack body carrying an n-octet string: [0] vendor 999 (3),
     [1] service 1 (2), opening tag (1), octet-string tag with its length escape, the octets, closing tag (1)"""
     return 3 + 2 + 1 + (1 if n <= 4 else 2 if n <= 253 else 4) + n + 1
 
 
+ABORT_SIDE = {"who": None}       # who has to tell the requester (set by expected_outcome): "client" = locally, "server" = on the wire
+
+
 def expected_outcome(req_len, resp_len, Sc, Ss, segc, segs, msc, known):
     rb, sb = body_len(req_len), body_len(resp_len)
+    ABORT_SIDE["who"] = None
     limit = Ss if known else Sc             # an unknown peer is assumed to accept what we accept
     if 4 + rb > limit:                      # request must be segmented (6-octet header per segment)
+        ABORT_SIDE["who"] = "client"
         if SEG[segc] not in CAN_TX:
             return "abort"
         if known and SEG[segs] not in CAN_RX:
             return "abort"
         if not known and SEG[segs] not in CAN_RX:
-            return "abort"                  # the server refuses the first segment itself
+            ABORT_SIDE["who"] = "either"    # the server refuses the first segment itself
+            return "abort"
     if 3 + sb > Sc:                         # response must be segmented (5-octet header per segment)
+        ABORT_SIDE["who"] = "server"
         if SEG[segs] not in CAN_TX or SEG[segc] not in CAN_RX:
             return "abort"
         n = -(-sb // (Sc - 5))
         limit_segs = msc if msc <= 64 else None
         if limit_segs is not None and n > limit_segs:
             return "abort"
+    ABORT_SIDE["who"] = None
     return "ack"
 
 
@@ -291,6 +369,13 @@ def instances(tier):
         for c in cfgs:
             out.append(Inst(limits_scn, dict(c, wmax=127), budget=80, path_timeout=60, label=label(c)))
         out.append(Inst(window_follow, dict(nseg=5, wmax=3), budget=150, path_timeout=60))
+        out.append(Inst(cache_moves, {}, budget=150, path_timeout=60))
+        # windows under loss (C05's scenario and wire oracle: never more segments outstanding than the window in force), the two
+        # sides proposing different windows
+        from .C05 import seg_payload, label as _l5
+        for c in (dict(S=50, wc=1, ws=4, req=(2, 2), resp=(150, 150), nf=1, kinds=[nl.DROP], horizon=10),
+                  dict(S=50, wc=4, ws=1, req=(150, 150), resp=(2, 2), nf=1, kinds=[nl.DROP], horizon=10)):
+            out.append(Inst(seg_payload, c, budget=150, path_timeout=60, label=_l5(c)))
     else:
         sizes = [50, 128, 206, 480]
         for Sc in sizes:
@@ -326,6 +411,12 @@ def instances(tier):
                 c = dict(Sc=50, Ss=50, segc=3, segs=segs, msc=16, known=known, req=(60, 60), resp=(2, 2), peer_asks_first=True)
                 out.append(Inst(limits_scn, dict(c, wmax=127), budget=400, path_timeout=90, label=label(c)))
         out.append(Inst(window_follow, dict(nseg=6, wmax=4), budget=900, path_timeout=90))
+        out.append(Inst(cache_moves, {}, budget=600, path_timeout=60))
+        from .C05 import seg_payload, label as _l5
+        for (wc, ws) in ((1, 4), (4, 1), (2, 8), (8, 2)):
+            for (req, resp) in (((2, 2), (150, 150)), ((150, 150), (2, 2))):
+                c = dict(S=50, wc=wc, ws=ws, req=req, resp=resp, nf=1, kinds=[nl.DROP, nl.DUP], horizon=14)
+                out.append(Inst(seg_payload, c, budget=600, path_timeout=90, label=_l5(c)))
         out.append(Inst(window_follow, dict(nseg=7, wmax=2), budget=900, path_timeout=90))
         out.append(Inst(window_follow, dict(nseg=5, wmax=127), budget=900, path_timeout=90))
         for Sx in (1024, 1476):
